@@ -256,6 +256,20 @@ func doOrders(r *req) map[string]interface{} {
 		}
 		for _, l := range o {
 			if _, isBad := bad[l]; isBad {
+				// the generator refuses this model when it runs alone: it must refuse it after the others too
+				f, err, p := h.Generate(l)
+				gens++
+				if p == nil && err == nil {
+					discs = append(discs, disc{Order: o, Lang: l, Kind: "succeeds-only-in-sequence", Detail: fmt.Sprintf("%d files although the generator alone reports: %s", len(f), bad[l])})
+				}
+				if r.Snap {
+					after := h.Snapshot()
+					snaps++
+					if after != before {
+						discs = append(discs, disc{Order: o, Lang: l, Kind: "model-mutated", Detail: firstDiff(before, after)})
+						before = after
+					}
+				}
 				continue
 			}
 			f, err, p := h.Generate(l)
